@@ -234,7 +234,8 @@ class Run:
         src = open(os.path.join(COQ, props)).read()
         thms = re.findall(r"^\s*(?:Theorem|Lemma|Corollary)\s+([A-Za-z0-9_']+)", src, re.M)
         printed = re.findall(r"^\s*Print Assumptions\s+([A-Za-z0-9_'.]+)\s*\.", src, re.M)
-        self.checker_cmd = "make -C coq %s  (coqc 8.16.1, full .vo build) + coqc coq/%s for Print Assumptions" % (" ".join(targets), props)
+        self.checker_cmd = (self.checker_cmd + " ; " if self.checker_cmd else "") + \
+            "make -C coq %s  (coqc 8.16.1, full .vo build) + coqc coq/%s for Print Assumptions" % (" ".join(targets), props)
         ok, out = make_targets(targets, timeout=timeout)
         if not ok:
             m = re.findall(r'File "\./([^"]+)", line (\d+)', out)
